@@ -138,11 +138,192 @@ func numGraph() *graph {
 }
 
 // ---------------------------------------------------------------------------
+// write orders
+//
+// The Writer keeps ONE "current object" reference that selects the key of
+// every string it formats, and it has two deferred paths: the dictionary of a
+// stream is only formatted once 1024 bytes have reached the stream (or at
+// Close), and objects Put while a stream is open are queued and written by
+// the Close of that stream.  Whether every string still gets the key of ITS
+// OWN (number, generation) therefore depends on the order of the API calls,
+// not only on the objects.  An Order is one element of the finite family of
+// call orders that the check enumerates for each graph; nil is the
+// sequential order (one object after the other, WriteCompressed last).
+//
+//	inside(h, s, k, j)   the body of stream h is written in two Writes, s
+//	                     bytes first; between them k direct (non-stream)
+//	                     objects of the graph, starting with the j-th, are
+//	                     Put (s = 0: before any Write; s = len: after the
+//	                     last byte); they are left out of the sequence
+//	wc-after(h)          stream h is written last of the individual objects
+//	                     and WriteCompressed follows its Close directly
+//	as-stream(h, a)      the unfiltered stream h is written as a *pdf.Stream
+//	                     object through Put, directly after the Put of the
+//	                     direct object a
+type Order struct {
+	Kind  string `json:"kind"` // inside | wc-after | as-stream
+	Host  int    `json:"host"` // item index of the stream
+	Split int    `json:"split,omitempty"`
+	K     int    `json:"k,omitempty"`
+	First int    `json:"first,omitempty"` // inside: index into the direct items; as-stream: item index of the object Put just before
+}
+
+func (o *Order) String() string {
+	if o == nil {
+		return "sequential"
+	}
+	switch o.Kind {
+	case "inside":
+		return fmt.Sprintf("inside(stream item %d, after %d bytes, %d objects from direct item #%d)", o.Host, o.Split, o.K, o.First)
+	case "wc-after":
+		return fmt.Sprintf("wc-after(stream item %d)", o.Host)
+	case "as-stream":
+		return fmt.Sprintf("as-stream(stream item %d after item %d)", o.Host, o.First)
+	}
+	return "bad order " + o.Kind
+}
+
+func (o *Order) key() string {
+	if o == nil {
+		return "seq"
+	}
+	return fmt.Sprintf("%s:%d:%d:%d:%d", o.Kind, o.Host, o.Split, o.K, o.First)
+}
+
+// streams lists the individually written stream items, directs the
+// individually written non-stream items.
+func (g *graph) streams() (out []int) {
+	for i, it := range g.items {
+		if !it.compressed && it.stream != nil {
+			out = append(out, i)
+		}
+	}
+	return out
+}
+
+func (g *graph) directs() (out []int) {
+	for i, it := range g.items {
+		if !it.compressed && it.stream == nil {
+			out = append(out, i)
+		}
+	}
+	return out
+}
+
+func (o *Order) valid(g *graph) error {
+	if o.Host < 0 || o.Host >= len(g.items) || g.items[o.Host].stream == nil || g.items[o.Host].compressed {
+		return fmt.Errorf("order %s: host is not a stream of the graph", o.key())
+	}
+	switch o.Kind {
+	case "inside":
+		if o.Split < 0 || o.Split > len(g.items[o.Host].stream.body) || o.K < 1 || o.K > len(g.directs()) || o.First < 0 || o.First >= len(g.directs()) {
+			return fmt.Errorf("order %s: out of range", o.key())
+		}
+	case "wc-after":
+	case "as-stream":
+		if o.First < 0 || o.First >= len(g.items) || g.items[o.First].stream != nil || g.items[o.First].compressed || len(g.items[o.Host].stream.filters) > 0 {
+			return fmt.Errorf("order %s: out of range", o.key())
+		}
+	default:
+		return fmt.Errorf("order %s: unknown kind", o.key())
+	}
+	return nil
+}
+
+// sequence gives the item indexes of the individually written objects in the
+// order in which write issues them (objects Put inside a stream are issued by
+// their host).
+func (g *graph) sequence(o *Order) []int {
+	var seq []int
+	for i, it := range g.items {
+		if !it.compressed {
+			seq = append(seq, i)
+		}
+	}
+	if o == nil {
+		return seq
+	}
+	drop := map[int]bool{}
+	switch o.Kind {
+	case "inside":
+		dir := g.directs()
+		for k := 0; k < o.K; k++ {
+			drop[dir[(o.First+k)%len(dir)]] = true
+		}
+	case "wc-after", "as-stream":
+		drop[o.Host] = true
+	}
+	var out []int
+	for _, i := range seq {
+		if drop[i] {
+			continue
+		}
+		out = append(out, i)
+		if o.Kind == "as-stream" && i == o.First {
+			out = append(out, o.Host)
+		}
+	}
+	if o.Kind == "wc-after" {
+		out = append(out, o.Host)
+	}
+	return out
+}
+
+// splitsFor is the alphabet of the points of a stream body of n bytes at
+// which other objects are Put: before the first byte, in the middle, after
+// the last byte, and around the two places where the Writer stops buffering
+// and emits the stream dictionary (1024 bytes have reached the stream: 1024
+// plaintext bytes under RC4 and without a filter, 16 + 1008 under AES).
+func splitsFor(n int) []int {
+	var out []int
+	seen := map[int]bool{}
+	for _, s := range []int{0, n / 2, 1007, 1008, 1023, 1024, n} {
+		if s <= n && !seen[s] {
+			seen[s] = true
+			out = append(out, s)
+		}
+	}
+	return out
+}
+
+// orders enumerates the write orders of a graph; the first one is nil (the
+// sequential order).
+func orders(g *graph) []*Order {
+	out := []*Order{nil}
+	seq := g.sequence(nil)
+	dir := g.directs()
+	for _, h := range g.streams() {
+		for _, s := range splitsFor(len(g.items[h].stream.body)) {
+			for k := 1; k <= 2 && k <= len(dir); k++ {
+				for j := range dir {
+					out = append(out, &Order{Kind: "inside", Host: h, Split: s, K: k, First: j})
+				}
+			}
+		}
+	}
+	for _, h := range g.streams() {
+		if h != seq[len(seq)-1] { // else it is the sequential order
+			out = append(out, &Order{Kind: "wc-after", Host: h})
+		}
+	}
+	for _, h := range g.streams() {
+		if len(g.items[h].stream.filters) > 0 {
+			continue
+		}
+		for _, a := range dir {
+			out = append(out, &Order{Kind: "as-stream", Host: h, First: a})
+		}
+	}
+	return out
+}
+
+// ---------------------------------------------------------------------------
 // writing with the library
 
 type written struct {
 	data  []byte
 	refs  []pdf.Reference // one per item
+	roles []string        // one per item: how the write order treated it ("" = written on its own, sequentially)
 	id    [][]byte        // as given (nil = chosen by the Writer)
 	pages pdf.Reference
 }
@@ -258,20 +439,69 @@ func write(g *graph, c *Case) (wr *written, stage string, err error) {
 			}
 		}
 	}
-	putItem := func(i int) (string, error) {
-		it := g.items[i]
+	ord := c.Order
+	if ord != nil {
+		if err := ord.valid(g); err != nil {
+			return nil, "case", err
+		}
+	}
+	wr.roles = make([]string, len(g.items))
+	alloc := func(i int) pdf.Reference {
 		if wr.refs[i] == 0 {
 			wr.refs[i] = w.Alloc()
 		}
-		ref := wr.refs[i]
+		return wr.refs[i]
+	}
+	// deferred: the direct objects that are Put while the host stream is open
+	var deferred []int
+	if ord != nil && ord.Kind == "inside" {
+		dir := g.directs()
+		for k := 0; k < ord.K; k++ {
+			deferred = append(deferred, dir[(ord.First+k)%len(dir)])
+		}
+	}
+	putItem := func(i int) (string, error) {
+		it := g.items[i]
+		ref := alloc(i)
 		if it.stream != nil {
 			s := it.stream
 			d, _ := hx.Clone(s.dict).(pdf.Dict)
+			data := append([]byte{}, s.body...)
+			if ord != nil && ord.Kind == "as-stream" && ord.Host == i {
+				// the whole stream as one object, through Put
+				wr.roles[i] = "stream-put-as-object-after-put"
+				if d == nil {
+					d = pdf.Dict{}
+				}
+				if err := w.Put(ref, pdf.NewStream(d, data)); err != nil {
+					return "put-stream", err
+				}
+				return "", nil
+			}
 			body, err := w.OpenStream(ref, d, s.filters...)
 			if err != nil {
 				return "openstream", err
 			}
-			if _, err := body.Write(append([]byte{}, s.body...)); err != nil {
+			if ord != nil && ord.Kind == "inside" && ord.Host == i {
+				// the body in two Writes, the Puts of other objects between them
+				wr.roles[i] = "stream-open-during-put"
+				if ord.Split > 0 {
+					if _, err := body.Write(data[:ord.Split]); err != nil {
+						return "stream-write", err
+					}
+				}
+				for _, j := range deferred {
+					wr.roles[j] = "put-while-stream-open"
+					if err := w.Put(alloc(j), hx.Clone(g.items[j].obj)); err != nil {
+						return "put-inside", err
+					}
+				}
+				if ord.Split < len(data) {
+					if _, err := body.Write(data[ord.Split:]); err != nil {
+						return "stream-write", err
+					}
+				}
+			} else if _, err := body.Write(data); err != nil {
 				return "stream-write", err
 			}
 			if err := body.Close(); err != nil {
@@ -285,43 +515,64 @@ func write(g *graph, c *Case) (wr *written, stage string, err error) {
 		}
 		return "", nil
 	}
-	for i := 0; i < nExplicit; i++ {
-		if st, err := putItem(i); err != nil {
-			return nil, st, err
+	putPages := func() (string, error) {
+		wr.pages = w.Alloc()
+		if err := w.Put(wr.pages, pdf.Dict{"Type": pdf.Name("Pages"), "Kids": pdf.Array{}, "Count": pdf.Integer(0)}); err != nil {
+			return "pages", err
 		}
+		w.GetMeta().Catalog.Pages = wr.pages
+		w.GetMeta().Info.Title = pdf.TextString(g.title)
+		return "", nil
 	}
-	var cRefs []pdf.Reference
-	var cObjs []pdf.Object
-	for i, it := range g.items {
-		if it.compressed && wr.refs[i] != 0 {
-			cRefs = append(cRefs, wr.refs[i])
-			cObjs = append(cObjs, hx.Clone(it.obj))
-		}
-	}
-
-	wr.pages = w.Alloc()
-	if err := w.Put(wr.pages, pdf.Dict{"Type": pdf.Name("Pages"), "Kids": pdf.Array{}, "Count": pdf.Integer(0)}); err != nil {
-		return nil, "pages", err
-	}
-	w.GetMeta().Catalog.Pages = wr.pages
-	w.GetMeta().Info.Title = pdf.TextString(g.title)
-
-	for i := nExplicit; i < len(g.items); i++ {
-		if g.items[i].compressed {
-			if wr.refs[i] == 0 {
-				wr.refs[i] = w.Alloc()
-				cRefs = append(cRefs, wr.refs[i])
-				cObjs = append(cObjs, hx.Clone(g.items[i].obj))
+	putCompressed := func(role string) (string, error) {
+		var cRefs []pdf.Reference
+		var cObjs []pdf.Object
+		for i, it := range g.items {
+			if it.compressed {
+				cRefs = append(cRefs, alloc(i))
+				cObjs = append(cObjs, hx.Clone(it.obj))
+				wr.roles[i] = role
 			}
-			continue
+		}
+		if len(cRefs) > 0 {
+			if err := w.WriteCompressed(cRefs, cObjs...); err != nil {
+				return "writecompressed", err
+			}
+		}
+		return "", nil
+	}
+
+	// The sequence of the individually written items.  Sequential order: the
+	// items in graph order, the Pages object after the items with explicit
+	// references (the Writer allocates above the largest number it has seen),
+	// WriteCompressed last.  A write order (see Order) moves items.
+	seq := g.sequence(ord)
+	pagesDone, wcDone := false, false
+	for k, i := range seq {
+		if k == nExplicit {
+			if st, err := putPages(); err != nil {
+				return nil, st, err
+			}
+			pagesDone = true
 		}
 		if st, err := putItem(i); err != nil {
 			return nil, st, err
 		}
+		if ord != nil && ord.Kind == "wc-after" && ord.Host == i {
+			if st, err := putCompressed("writecompressed-right-after-stream"); err != nil {
+				return nil, st, err
+			}
+			wcDone = true
+		}
 	}
-	if len(cRefs) > 0 {
-		if err := w.WriteCompressed(cRefs, cObjs...); err != nil {
-			return nil, "writecompressed", err
+	if !pagesDone {
+		if st, err := putPages(); err != nil {
+			return nil, st, err
+		}
+	}
+	if !wcDone {
+		if st, err := putCompressed(""); err != nil {
+			return nil, st, err
 		}
 	}
 	if err := w.Close(); err != nil {
